@@ -45,6 +45,8 @@ pub struct Ctx {
 }
 
 pub static FATAL: AtomicBool = AtomicBool::new(false);
+/// set when the generous wall-clock watchdog had to end a case: whatever the oracles say afterwards is withheld (inconclusive)
+pub static CASE_TAINTED: AtomicBool = AtomicBool::new(false);
 static OUT_PATH: Mutex<Option<PathBuf>> = Mutex::new(None);
 
 /// The worker cannot continue (a case hangs without a certificate).  Recorded as inconclusive by the driver.
@@ -141,6 +143,10 @@ impl Ctx {
 
     /// A refutation of the property.  `signature` identifies the failing input class + witness shape.
     pub fn violation(&mut self, signature: &str, what: &str, witness: J) {
+        if CASE_TAINTED.load(SeqCst) {
+            self.inconclusive("wall-clock watchdog fired during this case; verdict withheld", J::obj().set("would_be", J::s(signature)));
+            return;
+        }
         let j = J::obj()
             .set("type", J::s("violation"))
             .set("signature", J::s(signature))
@@ -292,6 +298,7 @@ pub fn install_panic_hook() {
 
 /// Start a new case: clear log, plans, clocks.
 pub fn begin_case() {
+    CASE_TAINTED.store(false, SeqCst);
     ilog::disarm();
     ilog::reset();
     plan::clear();
